@@ -386,6 +386,16 @@ Proof.
   cbn [cr_step]. unfold cr_heartbeat. destruct (rm_timeout N (cr_mon c) t) as [m b]. destruct b; reflexivity.
 Qed.
 
+(* a heartbeat that does not time out leaves the whole check-up (monitor and report) unchanged and answers "alive" *)
+Lemma early_heartbeat_changes_nothing k c t :
+  snd (rm_timeout N (cr_mon c) t) = false -> cr_step N k c (Heartbeat t) = (c, OBeat true).
+Proof.
+  intros H. cbn [cr_step]. unfold cr_heartbeat.
+  pose proof (timeout_rule_gen (cr_mon c) t) as Ht.
+  destruct (rm_timeout N (cr_mon c) t) as [m b]. cbn [snd] in H. subst b.
+  destruct Ht as (_ & _ & Hf). rewrite (Hf eq_refl). destruct c; reflexivity.
+Qed.
+
 End Inv.
 
 (* ------------------------------------------------------------------ the real-number instance *)
